@@ -91,9 +91,24 @@ rt_plan("C03", "c03", "every borrowed part == the block the Probe writer recorde
         stubs=RT_STUBS + ["Probe: WriteWithNames delegating to the real WriterWithPos, logging align/write_bytes events"])
 PLAN["C03"]["family_covers"] = ["a borrowed part exists"]
 _c03q, _c03t = PLAN["C03"]["quick"], PLAN["C03"]["thorough"]
-_C03A_WHAT = "bytes allocated during eps deserialization == deep-copy skeleton + fully copied fields (0 for flat zero-copy sequences, strings, zero-copy structs), independent of borrowed lengths"
-PLAN["C03"]["quick"] = lambda seed: [dict(_c03q(seed)[0], harnesses=_c03q(seed)[0]["harnesses"] + fam_harnesses("c03a", "quick", _C03A_WHAT, covers="all"))]
-PLAN["C03"]["thorough"] = lambda seed: [dict(_c03t(seed)[0], harnesses=_c03t(seed)[0]["harnesses"] + fam_harnesses("c03a", "thorough", _C03A_WHAT, covers="all"))]
+_C03A_WHAT = "two values with the same deep-copy skeleton / fully copied fields and independently chosen borrowed lengths: same allocated bytes and allocator calls during eps deserialization"
+
+
+def _c03_misplaced(tier):
+    # "aligned for its element type" also has to hold when the input buffer itself is misaligned: the result is then
+    # either AlignmentError or carries aligned references.  That is C12's harness family; the instances whose eps result
+    # borrows are run for C03 as well (seed C03_align_fastpath_skips_addr_check only shows on a misaligned base).
+    sel = ("ZeroSC", "VecU32", "ArrU32x3") if tier == "quick" else None
+    out = []
+    for h in c12_harnesses(tier):
+        case = h["role"].split("/", 1)[1]
+        if sel is None or case in sel:
+            out.append(dict(h, what="(family shared with C12) misaligned buffer base, R symbolic: Ok implies every borrowed reference is aligned", role="c03-misplaced/" + case))
+    return out
+
+
+PLAN["C03"]["quick"] = lambda seed: [dict(_c03q(seed)[0], harnesses=_c03q(seed)[0]["harnesses"] + fam_harnesses("c03a", "quick", _C03A_WHAT, covers="all") + _c03_misplaced("quick"))]
+PLAN["C03"]["thorough"] = lambda seed: [dict(_c03t(seed)[0], harnesses=_c03t(seed)[0]["harnesses"] + fam_harnesses("c03a", "thorough", _C03A_WHAT, covers="all") + _c03_misplaced("thorough"))]
 PLAN["C03"]["stubs"] = PLAN["C03"]["stubs"] + ["std::alloc::alloc -> env::count_alloc_stub (alloc_zeroed + byte counter)"]
 PLAN["C03"]["outside"] = COMMON_OUTSIDE + ["allocations that bypass std::alloc::alloc (realloc/alloc_zeroed are not called by the deserializers)"]
 PLAN["C03"]["outside"] = COMMON_OUTSIDE + ["the allocation-count sub-claim (allocated memory independent of borrowed lengths): Kani offers no allocation counter; pointer identity of every borrowed part with the input buffer is decided instead"]
